@@ -71,6 +71,7 @@ fn execute_ex(ctx: &mut Ctx, stream: &[u8], eof_at: Option<usize>, reset: bool, 
     let s = Scripted::new(sh.clone(), stream.to_vec(), chunking);
     s.st.borrow_mut().eof_at = eof_at;
     s.st.borrow_mut().fail_instead_of_eof = reset;
+    watch_describe(|| format!("read_packet on the stream {} with the end of the stream at {eof_at:?} (as I/O error: {reset})", hex_short(stream)));
     let mut out = Outcome { results: vec![], consumed_after: vec![], blocked: false };
     {
         let mut tr = PacketTransport { source: s.clone() };
@@ -285,6 +286,8 @@ fn check_acknowledged(name: &str, first: &[u8], second: &[u8], acc: &mut Acc) {
                             Ok(Some(Err(_))) => {
                                 if first_is_ack && complete {
                                     problems.push("write_packet_with_ack failed although a complete acknowledgement followed the command".into());
+                                } else if complete && s.consumed() != first.len() {
+                                    problems.push(format!("write_packet_with_ack refused the packet {} but consumed {} bytes of it (the packet ends at {}): the next read starts off the packet boundary", hex_short(first), s.consumed(), first.len()));
                                 } else {
                                     acc.count("ack_errors", 1);
                                 }
@@ -339,6 +342,8 @@ fn check_acknowledged(name: &str, first: &[u8], second: &[u8], acc: &mut Acc) {
                             Ok(Some(Err(_))) => {
                                 if complete && parseable {
                                     problems.push("read_packet_with_ack failed on a complete packet".into());
+                                } else if complete && s.consumed() != first.len() {
+                                    problems.push(format!("read_packet_with_ack refused the packet {} but consumed {} bytes of it (the packet ends at {})", hex_short(first), s.consumed(), first.len()));
                                 } else if !written.is_empty() {
                                     problems.push(format!("read_packet_with_ack failed but wrote {}", hex_short(&written)));
                                 } else {
@@ -366,6 +371,62 @@ fn check_acknowledged(name: &str, first: &[u8], second: &[u8], acc: &mut Acc) {
             acc.count("transitions", st.transitions);
         }
     }
+}
+
+/// A packet the caller's reply enum does not know, between two it knows: the read fails, but it
+/// consumes exactly that packet, so the packets behind it are still returned.
+fn check_foreign_between(name: &str, before: &[u8], foreign: &[u8], after: &[u8], acc: &mut Acc) {
+    let mut stream = before.to_vec();
+    stream.extend_from_slice(foreign);
+    stream.extend_from_slice(after);
+    let st = dbx::explore(1, 1_000_000, |ctx| {
+        let sh: Sh = Rc::new(RefCell::new(std::mem::replace(ctx, Ctx::new(vec![], vec![], 0))));
+        let s = Scripted::new(sh.clone(), stream.clone(), Chunking::Deviations);
+        let mut got: Vec<(Option<Result<String, String>>, usize)> = vec![];
+        {
+            let mut tr = PacketTransport { source: s.clone() };
+            for _ in 0..3 {
+                let r = guarded(|| {
+                    let mut fut = Box::pin(tr.read_packet::<Resp>());
+                    match drive(fut.as_mut()) {
+                        Driven::Done(Ok(p)) => Some(Ok(format!("{p:?}"))),
+                        Driven::Done(Err(e)) => Some(Err(format!("{e:?}"))),
+                        Driven::Blocked => None,
+                    }
+                });
+                match r {
+                    Ok(x) => got.push((x, s.consumed())),
+                    Err(p) => {
+                        got.push((Some(Err(format!("PANIC: {p}"))), s.consumed()));
+                        break;
+                    }
+                }
+            }
+        }
+        drop(s);
+        *ctx = Rc::try_unwrap(sh).ok().expect("stream still holds the context").into_inner();
+        acc.count("executions", 1);
+        acc.count("foreign_between_executions", 1);
+        let e1 = before.len();
+        let e2 = e1 + foreign.len();
+        let e3 = e2 + after.len();
+        let ok = got.len() == 3
+            && matches!(&got[0], (Some(Ok(d)), p) if *d == expect_debug(before) && *p == e1)
+            && matches!(&got[1], (Some(Err(e)), p) if !e.starts_with("PANIC") && *p == e2)
+            && matches!(&got[2], (Some(Ok(d)), p) if *d == expect_debug(after) && *p == e3);
+        acc.set("outcomes", h64(&(name, ctx.choices(), ok)));
+        if ok {
+            acc.count("foreign_between_ok", 1);
+        } else {
+            let choices = ctx.choices();
+            acc.violation(viol(
+                format!("c04/foreign-between/{name}/choices={choices:?}"),
+                format!("stream {name} ({}), read-split choices {choices:?}\nthree reads as InitializationResponse returned (result, stream offset): {:?}\nexpected: the first packet at offset {e1}, an error at offset {e2} (the packet is outside the reply set but must be read to its end), the last packet at offset {e3}", hex_short(&stream), got.iter().map(|(r, p)| (r.as_ref().map(|x| x.as_ref().map(|s| s.chars().take(40).collect::<String>()).map_err(|s| s.chars().take(60).collect::<String>())), *p)).collect::<Vec<_>>()),
+                ctx.deviations as u64 * 1000 + stream.len() as u64,
+            ));
+        }
+    });
+    acc.count("transitions", st.transitions);
 }
 
 fn header_agreement(lens: &[usize], acc: &mut Acc) {
@@ -457,6 +518,7 @@ pub fn run(run: &RunInfo) -> Summary {
         Seq(usize),
         Header(usize),
         Acked(usize, usize),
+        Foreign(usize, usize),
     }
     let mut work: Vec<W> = (0..seqs.len()).map(W::Seq).collect();
     let lens: Vec<usize> = if thorough {
@@ -475,6 +537,22 @@ pub fn run(run: &RunInfo) -> Summary {
     for f in 0..firsts.len() {
         for sec in [0usize, 1, 6] {
             work.push(W::Acked(f, sec));
+        }
+    }
+    // packets outside the reply enum of the reader: status information with bodies of several sizes, a
+    // negative acknowledgement, an acknowledgement, an unknown control field with a 300-byte body
+    let foreigns: Vec<(String, Vec<u8>)> = {
+        let mk = |c: u8, i: u8, n: usize| -> Vec<u8> {
+            let mut p = vec![c, i];
+            p.extend(apdu_len(n).unwrap());
+            p.extend((0..n).map(|k| (k * 5 + 1) as u8));
+            p
+        };
+        vec![("status-0".into(), mk(0x04, 0x0f, 0)), ("status-2".into(), vec![0x04, 0x0f, 0x02, 0x27, 0x00]), ("nack".into(), vec![0x84, 0x9a, 0x00]), ("ack".into(), vec![0x80, 0x00, 0x00]), ("unknown-1".into(), mk(0x0f, 0x0f, 1)), ("unknown-254".into(), mk(0x0f, 0x0f, 254)), ("unknown-255".into(), mk(0x0f, 0x0f, 255)), ("unknown-300".into(), mk(0x06, 0xd8, 300))]
+    };
+    for f in 0..foreigns.len() {
+        for a in [0usize, 1, 2, 6] {
+            work.push(W::Foreign(f, a));
         }
     }
     let chunks: Vec<&[usize]> = lens.chunks(256).collect();
@@ -509,6 +587,12 @@ pub fn run(run: &RunInfo) -> Summary {
                 header_agreement(chunks[*ci], acc)
             }
         }
+        W::Foreign(f, a) => {
+            let name = format!("{}+{}+{}", alpha[1].0, foreigns[*f].0, alpha[*a].0);
+            if !skip_for_replay(run, &format!("c04/foreign-between/{name}/")) {
+                check_foreign_between(&name, &alpha[1].1, &foreigns[*f].1, &alpha[*a].1, acc);
+            }
+        }
         W::Acked(f, sec) => {
             let name = format!("{}+{}", firsts[*f].0, alpha[*sec].0);
             if !skip_for_replay(run, &format!("c04/acknowledged/{name}/")) {
@@ -516,6 +600,9 @@ pub fn run(run: &RunInfo) -> Summary {
             }
         }
     });
+    if acc.get("foreign_between_ok") > 0 {
+        acc.witness("a packet outside the reader's reply set was refused and read to its boundary");
+    }
     if acc.get("ack_accepted") > 0 && acc.get("read_acknowledged") > 0 && acc.get("ack_errors") > 0 {
         acc.witness("acknowledged forms: accepted, acknowledged and failed cases seen");
     }
@@ -536,7 +623,7 @@ pub fn run(run: &RunInfo) -> Summary {
         transitions: acc.get("transitions") + acc.get("header_cases"),
         traces_validated: execs,
         distinct_nontrivial: acc.set_len("outcomes") + acc.get("header_agreed"),
-        rule: format!("all sequences of k<=3 packets over a 9-packet alphabet (empty body, 1-2 byte bodies, bodies of 253/254/255/256/300 bytes): for streams of <=12 (thorough: 16) bytes every partition into read() results with a Pending+wake before any subset of polls; for longer streams every placement of <= {budget} deviations (1-byte, half, all-but-one read, Pending); end of stream, and a connection reset, at every byte offset; the acknowledged forms write_packet_with_ack / read_packet_with_ack over 12 first packets (acknowledgement, two negative acknowledgements, the alphabet) x 3 following packets x end of stream / reset at every offset of the first packet and the next header x one read deviation, and with a broken writing side; writer/reader header agreement for {} body lengths with a sentinel packet behind. distinct_nontrivial = distinct (stream, end position, result list) outcomes + agreeing body lengths", lens.len()),
+        rule: format!("all sequences of k<=3 packets over a 9-packet alphabet (empty body, 1-2 byte bodies, bodies of 253/254/255/256/300 bytes): for streams of <=12 (thorough: 16) bytes every partition into read() results with a Pending+wake before any subset of polls; for longer streams every placement of <= {budget} deviations (1-byte, half, all-but-one read, Pending); end of stream, and a connection reset, at every byte offset; the acknowledged forms write_packet_with_ack / read_packet_with_ack over 12 first packets (acknowledgement, two negative acknowledgements, the alphabet) x 3 following packets x end of stream / reset at every offset of the first packet and the next header x one read deviation, and with a broken writing side; 8 packets outside the reader's reply enum (bodies of 0..300 bytes) between two packets it knows, one read deviation: an error, and exactly that packet consumed; a packet refused by an acknowledged form is consumed to its end as well; writer/reader header agreement for {} body lengths with a sentinel packet behind. distinct_nontrivial = distinct (stream, end position, result list) outcomes + agreeing body lengths", lens.len()),
         exhaustive: true,
         required_witnesses: vec![
             "all chunkings of a short stream explored".into(),
@@ -544,6 +631,7 @@ pub fn run(run: &RunInfo) -> Summary {
             "partial reads and Pending wake-ups exercised".into(),
             "extended length header written and read back".into(),
             "acknowledged forms: accepted, acknowledged and failed cases seen".into(),
+            "a packet outside the reader's reply set was refused and read to its boundary".into(),
         ],
         assumptions: vec!["I/O errors other than end of stream are not injected here (C06, C09)".into()],
         bounds: json!({"packets_per_stream": 3, "deviation_budget": budget, "header_lengths": lens.len()}),
